@@ -10,6 +10,7 @@ import random
 from decimal import Decimal
 
 ID = 'C14'
+TECHNIQUE = 'online reference-model monitor: list/dict models driven by the same operation sequence, exhaustive to depth 2/3 and random'
 RULE = ('operation sequences over one list and one dict held in a persistent names mapping: push, pop, pop(i), insert, remove, read, write, compound write, del, '
         'index_of, len, in, slices / dict write, read, compound write, del, get (with and without default), keys, values, items, len, remove; indices: integers, '
         'decimals (truncation toward zero, both signs), negative, out of range; keys: integer and decimal literals (1 vs 1.0 vs 007), negative, strings, booleans, None. '
